@@ -103,7 +103,7 @@ def big_stream(rng, target, huge=0):
         for _ in range(nframes):
             canon += b"F"
             for _ in range(rng.randint(0, 4)):
-                k = rng.choice([b"file", b"Title", b"A-b", b"x_y"])
+                k = rng.choice([b"file", b"Title", b"A-b", b"x_y", b"title", b"TITLE", b"Titl", b"Titles", b"File"])  # keys are interned per connection
                 ln = rng.choice([0, 1, 10, 200, 3000, 4095, 4096, 4097, 9000])
                 v = bytes(rng.choice(b"abcOK: \xc3\xa9"[:8]) for _ in range(ln))
                 v = v.replace(b"\xc3", b"c")  # keep valid UTF-8 (no stray lead bytes)
@@ -148,7 +148,7 @@ def small_stream(rng, nresp):
     for _ in range(nresp):
         canon += b"resp|F"
         for _ in range(rng.choice([0, 1, 1, 2, 3])):
-            k = rng.choice([b"changed", b"volume", b"state", b"a"])
+            k = rng.choice([b"changed", b"volume", b"state", b"a", b"A", b"Changed", b"change", b"changed-x", b"Volume"])  # keys are interned per connection
             v = rng.choice([b"player", b"mixer", b"5", b"play", b"", b"x" * rng.randint(0, 30)])
             out += k + b": " + v + b"\n"
             canon += k + b":" + v + b"\n"
